@@ -15,3 +15,5 @@ def run(prog, rep):
     _ro.run_name_first(prog, rep)
     from ..rules import r_key as _rk3
     _rk3.run_handles_only(prog, rep)
+    from ..rules import r_hdr as _rh12
+    _rh12.run(prog, rep)
